@@ -22,7 +22,9 @@ type target struct {
 	InlineClosures  bool              // local closures without results are inlined at their call statements (closures.go)
 	StructLocal     string            // a local of a modelled struct type that is replaced by one local per field (structlocal.go)
 	Concrete        []string          // Go types this target sees as their modelled struct (not as the opaque parameter of typeTable)
-	Shell           bool              // every method the function calls on its receiver is a parameter (shellMethods): the definition
+	SelfAs          string            // a call of the function to itself is a call of this section variable (open recursion: the file's
+	// postlude closes it with fuel)
+	Shell bool // every method the function calls on its receiver is a parameter (shellMethods): the definition
 	// depends on the body of this one function only. A shell target is never a callee; list it after the full one.
 }
 
@@ -34,6 +36,7 @@ type genFile struct {
 	ModelImports []string // Ucan.Model.* modules the generated file needs
 	Structs      []string // keys of structTable whose Lean structures this file declares
 	Prelude      string   // extra section variables of this file
+	Postlude     string   // definitions after the generated ones (the fuel-bounded fixpoint of an open-recursive target)
 }
 
 var genFiles = []genFile{
@@ -53,6 +56,7 @@ var genFiles = []genFile{
 	{Name: "PolicyAcc"},
 	{Name: "PolicyMatch", Prelude: policyMatchPrelude},
 	{Name: "PolicyOrder", ModelImports: []string{"NodeApi"}},
+	{Name: "Limits", ModelImports: []string{"NodeApi"}, Prelude: "variable (ext_self : Node → GoM Unit)\n", Postlude: limitsPostlude},
 	{Name: "ChainEntry", Imports: []string{"ChainTypes"}, Prelude: chainEntryPrelude},
 	{Name: "ChainProofsShell", Imports: []string{"ChainTypes"}, Prelude: "variable (ext_Covers : Bytes → Bytes → GoM Bool)\n"},
 	{Name: "ChainShell", Imports: []string{"ChainTypes"}, Prelude: chainShellPrelude},
@@ -74,6 +78,8 @@ var targets = []target{
 	{Dir: "pkg/policy", Recv: "Policy", Name: "Match", Lean: "Policy_Match", File: "PolicyMatch", Uses: []string{"ext_matchStatement"}},
 	{Dir: "pkg/policy", Recv: "Policy", Name: "PartialMatch", Lean: "Policy_PartialMatch", File: "PolicyMatch", Uses: []string{"ext_matchStatement"}},
 	{Dir: "pkg/policy", Name: "isOrdered", Lean: "isOrdered", File: "PolicyOrder", Concrete: []string{"datamodel.Node"}},
+	{Dir: "pkg/policy/limits", Name: "ValidateIntegerBoundsIPLD", Lean: "ValidateIntegerBoundsIPLD_step", File: "Limits", MapIterators: true,
+		Concrete: []string{"datamodel.Node"}, SelfAs: "ext_self", Uses: []string{"ext_self"}},
 	{Dir: "pkg/policy", Name: "parseGlob", Lean: "parseGlob", File: "Glob", Fuel: []string{"pattern.length + 1"}},
 	{Dir: "pkg/policy", Recv: "glob", Name: "Match", Lean: "glob_Match", File: "Glob",
 		Fuel: []string{"(str.length + 1) * (pattern.length + 2) + 1", "pattern.length + 1"}},
@@ -289,6 +295,7 @@ var libCalls = map[string]libCall{
 	"parse.OptionalTimestamp": {"(OptionalTimestamp $1)", ty{"(Option Int)", "*time.Time"}, nil},
 	"meta.NewMeta":            {"(some ext_newMeta)", ty{"(Option M)", "*meta.Meta"}, []string{"ext_newMeta"}},
 	// pseudo-functions the map-iterator rewrite produces
+	"listEntries__": {"(listEntries $1)", ty{"(List Node)", "[]datamodel.Node"}, nil},
 	"mapEntries__":  {"(mapEntries $1)", ty{"(List (Node × Node))", "[]nodepair"}, nil},
 	"pairFst__":     {"($1).1", ty{"Node", "datamodel.Node"}, nil},
 	"pairSnd__":     {"($1).2", ty{"Node", "datamodel.Node"}, nil},
@@ -369,6 +376,7 @@ var useTypes = map[string]string{
 	"ext_invValidate":      "InvDec D C A M → GoM Unit",
 	"ext_argsValidate":     "A → GoM Unit",
 	"ext_fromUvarint":      "Bytes → GoM (Int × Int)",
+	"ext_self":             "Node → GoM Unit", // limits.ValidateIntegerBoundsIPLD calling itself (open recursion)
 }
 
 // pairTypes: component types of the pair types externs return
@@ -441,6 +449,13 @@ var constTable = map[string]constDef{
 	"limits.MinInt53":         {"Ucan.Facts.minInt53", intTy},
 	"math.MaxInt":             {"(9223372036854775807 : Int)", intTy},
 }
+
+// limitsPostlude: the recursion of ValidateIntegerBoundsIPLD closed with fuel (each level of nesting of the node costs one)
+const limitsPostlude = `/-- ` + "`limits.ValidateIntegerBoundsIPLD`" + `: the regenerated body with its recursive calls bound to the same function with less fuel -/
+def ValidateIntegerBoundsIPLD : Nat → Node → GoM Unit
+  | 0, _ => throw .fuel
+  | fuel + 1, node => ValidateIntegerBoundsIPLD_step (ValidateIntegerBoundsIPLD fuel) node
+`
 
 const prelude = `variable (lower : Bytes → Bytes) {D C S A : Type} [DecidableEq D]
 `
